@@ -86,6 +86,56 @@ func minimise(t *testing.T, sc *Scenario, tape []uint32, v Violation) (*Scenario
 			return true
 		})
 	}
+	// operation lists of the scripted worlds (W2 peer, W4 queue and log): what
+	// comes after the violation is irrelevant, so first find a short prefix
+	// that still fails, then drop single operations from the end backwards
+	type opList struct {
+		length func(c *Scenario) int
+		cut    func(c *Scenario, n int)
+		drop   func(c *Scenario, i int)
+	}
+	lists := []opList{
+		{func(c *Scenario) int { return len(c.Peer) }, func(c *Scenario, n int) { c.Peer = c.Peer[:n] },
+			func(c *Scenario, i int) { c.Peer = append(c.Peer[:i:i], c.Peer[i+1:]...) }},
+		{func(c *Scenario) int { return len(c.QueueOps) }, func(c *Scenario, n int) { c.QueueOps = c.QueueOps[:n] },
+			func(c *Scenario, i int) { c.QueueOps = append(c.QueueOps[:i:i], c.QueueOps[i+1:]...) }},
+		{func(c *Scenario) int { return len(c.LogOps) }, func(c *Scenario, n int) { c.LogOps = c.LogOps[:n] },
+			func(c *Scenario, i int) { c.LogOps = append(c.LogOps[:i:i], c.LogOps[i+1:]...) }},
+	}
+	for _, l := range lists {
+		if l.length(best) < 2 {
+			continue
+		}
+		budget += 40 // these runs are short
+		lo, hi := 1, l.length(best) // shortest failing prefix is in (lo-1, hi]
+		for lo < hi && budget > 0 {
+			mid := (lo + hi) / 2
+			c := clone(best)
+			l.cut(c, mid)
+			budget--
+			if _, ok := fires(c, nil, -1); ok {
+				hi = mid
+			} else {
+				lo = mid + 1
+			}
+		}
+		if hi < l.length(best) {
+			c := clone(best)
+			l.cut(c, hi)
+			budget--
+			if _, ok := fires(c, nil, -1); ok {
+				best = c
+			}
+		}
+		for i := l.length(best) - 2; i >= 0 && budget > 0; i-- {
+			c := clone(best)
+			l.drop(c, i)
+			budget--
+			if _, ok := fires(c, nil, -1); ok {
+				best = c
+			}
+		}
+	}
 	once := func(mut func(c *Scenario) bool) {
 		if budget <= 0 {
 			return
